@@ -155,5 +155,55 @@ fn main() {
             }}
         }
     }
+    // real stores as consumers: after a source failure at item k the store holds exactly the k items before it
+    // (insert_all / collect), and the error is a source error carrying the original value; remove_all likewise
+    {
+        use sophia_api::graph::{CollectibleGraph, Graph, MutableGraph};
+        use sophia_api::dataset::{CollectibleDataset, Dataset, MutableDataset};
+        use sophia_api::source::{QuadSource, TripleSource};
+        use sophia_api::term::{IriRef, SimpleTerm};
+        use sophia_inmem::dataset::{FastDataset, LightDataset};
+        use sophia_inmem::graph::{FastGraph, LightGraph};
+        use std::collections::{BTreeSet, HashSet};
+        type T = SimpleTerm<'static>;
+        fn it(i: usize) -> T { SimpleTerm::Iri(IriRef::new_unchecked(format!("x:t{}", i).into())) }
+        for len in 0..5usize { for k in 0..=len {
+            // items 0..len, the source fails INSTEAD of item k (k == len: no failure)
+            let triples = move || (0..len).map(move |i| if i == k { Err(EA(7)) } else { Ok([it(i), it(100), it(i + 1)]) });
+            let quads = move || (0..len).map(move |i| if i == k { Err(EA(7)) } else { Ok(([it(i), it(100), it(i + 1)], if i % 2 == 0 { None } else { Some(it(200)) })) });
+            macro_rules! graph { ($ty:ty, $name:expr) => {{
+                n += 1;
+                let mut g = <$ty>::default();
+                let r = g.insert_all(triples());
+                let held = g.triples().count();
+                let ok = if k < len { matches!(&r, Err(StreamError::SourceError(EA(7)))) && held == k } else { matches!(&r, Ok(c) if *c == len) && held == len };
+                if !ok { println!("{{\"mismatch\":\"{}::insert_all: after a source failure at item {} of {} the graph holds {} triples, result {:?}\"}}", $name, k, len, held, r.map_err(|e| format!("{:?}", e))); std::process::exit(1); }
+                // remove_all from a full graph
+                let mut g = <$ty>::default();
+                for i in 0..len { MutableGraph::insert(&mut g, it(i), it(100), it(i + 1)).unwrap(); }
+                let r = g.remove_all(triples());
+                let held = g.triples().count();
+                let ok = if k < len { matches!(&r, Err(StreamError::SourceError(EA(7)))) && held == len - k } else { matches!(&r, Ok(c) if *c == len) && held == 0 };
+                if !ok { println!("{{\"mismatch\":\"{}::remove_all: after a source failure at item {} of {} the graph still holds {} triples, result {:?}\"}}", $name, k, len, held, r.map_err(|e| format!("{:?}", e))); std::process::exit(1); }
+                // collect
+                let r: Result<$ty, _> = triples().collect_triples();
+                let ok = if k < len { matches!(&r, Err(StreamError::SourceError(EA(7)))) } else { matches!(&r, Ok(g) if g.triples().count() == len) };
+                if !ok { println!("{{\"mismatch\":\"collect_triples::<{}> with a source failure at item {} of {}: wrong result\"}}", $name, k, len); std::process::exit(1); }
+            }}}
+            graph!(FastGraph, "FastGraph"); graph!(LightGraph, "LightGraph"); graph!(HashSet<[T; 3]>, "HashSet<[T;3]>"); graph!(BTreeSet<[T; 3]>, "BTreeSet<[T;3]>"); graph!(Vec<[T; 3]>, "Vec<[T;3]>");
+            macro_rules! dataset { ($ty:ty, $name:expr) => {{
+                n += 1;
+                let mut d = <$ty>::default();
+                let r = d.insert_all(quads());
+                let held = d.quads().count();
+                let ok = if k < len { matches!(&r, Err(StreamError::SourceError(EA(7)))) && held == k } else { matches!(&r, Ok(c) if *c == len) && held == len };
+                if !ok { println!("{{\"mismatch\":\"{}::insert_all: after a source failure at item {} of {} the dataset holds {} quads, result {:?}\"}}", $name, k, len, held, r.map_err(|e| format!("{:?}", e))); std::process::exit(1); }
+                let r: Result<$ty, _> = quads().collect_quads();
+                let ok = if k < len { matches!(&r, Err(StreamError::SourceError(EA(7)))) } else { matches!(&r, Ok(d) if d.quads().count() == len) };
+                if !ok { println!("{{\"mismatch\":\"collect_quads::<{}> with a source failure at item {} of {}: wrong result\"}}", $name, k, len); std::process::exit(1); }
+            }}}
+            dataset!(FastDataset, "FastDataset"); dataset!(LightDataset, "LightDataset"); dataset!(HashSet<sophia_api::quad::Spog<T>>, "HashSet<Spog>"); dataset!(Vec<sophia_api::quad::Spog<T>>, "Vec<Spog>");
+        }}
+    }
     println!("{{\"ok\":true,\"cases\":{}}}", n);
 }
